@@ -617,6 +617,29 @@ pub fn gen_c16(cx: &mut Ctx) {
             l.insert(l.len() - 1, "");
             variants.push(l.join("\n"));
         }
+        // record terminators: CRLF everywhere, one bare CR, a CR at the very end
+        variants.push(lines.join("\r\n"));
+        variants.push(format!("{}\r\n", lines.join("\r\n")));
+        if lines.len() >= 2 {
+            let k = 1 + cx.rng.below(lines.len() - 1);
+            let mut t = lines[..k].join("\n");
+            t.push('\r');
+            t.push_str(&lines[k..].join("\n"));
+            variants.push(t);
+        }
+        variants.push(format!("{}\r", lines.join("\n")));
+        // a surplus record hidden behind a bare CR (the `\n` line count stays right): a copy of
+        // another data row, and a copy of the same row
+        if lines.len() >= 2 {
+            let i = lines.len() - 1 - cx.rng.below(lines.len() - 1);
+            let j = lines.len() - 1 - cx.rng.below(lines.len() - 1);
+            let mut l: Vec<String> = lines.iter().map(|x| x.to_string()).collect();
+            l[i] = format!("{}\r{}", lines[i], lines[j]);
+            variants.push(l.join("\n"));
+            let mut l: Vec<String> = lines.iter().map(|x| x.to_string()).collect();
+            l[i] = format!("{}\r{}", lines[j], lines[i]);
+            variants.push(l.join("\n"));
+        }
         variants.push(format!("\n{}", base));
         variants.push(format!("{}\n\n", base.trim_end_matches('\n')));
         variants.push(format!("{}\n \n", base.trim_end_matches('\n')));
